@@ -33,8 +33,9 @@ Definition jtxns_bposts (ts : list jtxn) : list bpost :=
   flat_map (fun t => map (fun jp => post_bpost (jp_p jp)) (jt_posts t)) ts.
 
 (* ------------------------------------------------------------------ well-formed export *)
-(* commodity: none, or an identifier of the grammar *)
-Definition eq_comm_ok (c : list N) : bool := is_nil c || ident_ok c.
+(* commodity: none, or an identifier of the grammar that Commodity::from accepts (no white-space
+   character: U+1680 is an identifier character and White_Space) = Journal_spec.comm_ok *)
+Definition eq_comm_ok (c : list N) : bool := is_nil c || comm_ok c.
 (* account names of the grammar (Journal_spec.name_ok) that the semantic layer accepts
    (Journal.acct_sem_ok); amounts inside the decimal type (96 bits, scale <= 28) *)
 Definition eq_acct_ok (a : acct) : bool := name_ok a && acct_sem_ok a.
@@ -52,7 +53,8 @@ Definition export_wf (md : list (list (list N))) (es : list eq_txn) : bool :=
   md_wf md && forallb eq_txn_wf es.
 
 (* the description is read back unchanged iff it does not end in white space; the only way it
-   can is a commodity name ending in U+1680 (an identifier character that is White_Space) *)
+   could is a commodity name ending in U+1680 (an identifier character that is White_Space),
+   which eq_comm_ok excludes (EquityText_proofs.eq_comm_ok_plain) *)
 Definition eq_desc_plain (e : eq_txn) : bool := str_eqb (trim_end (e_comm e)) (e_comm e).
 
 (* ------------------------------------------------------------------ well-formed source *)
